@@ -158,9 +158,9 @@ func (g *gen) spec(op *Op) Spec {
 	idxs := g.alive(func(s *gslot) bool { return s.kind == "idx" })
 	k := rapid.IntRange(0, 99).Draw(g.t, "speckind")
 	switch {
-	case k < 22 || (k < 52 && len(idxs) == 0):
+	case k < 18 || (k < 54 && len(idxs) == 0):
 		sp.Kind, sp.DT = "idx", "timestamp"
-	case k < 52:
+	case k < 54:
 		ix := rapid.SampledFrom(idxs).Draw(g.t, "index")
 		sp.Idx = ix.id
 		sp.LH = ix.lh
@@ -270,9 +270,9 @@ func (g *gen) delete() Op {
 	style := rapid.IntRange(0, 19).Draw(g.t, "delstyle")
 	idxs := g.alive(func(s *gslot) bool { return s.kind == "idx" })
 	switch {
-	case style < 6:
+	case style < 5:
 		targets = g.pickSlots(1)
-	case style < 14 && len(idxs) > 0:
+	case style < 15 && len(idxs) > 0:
 		// mixed batch: an index, (some of) the data channels it indexes, virtual channels of the
 		// same leaseholder, possibly a free channel
 		ix := rapid.SampledFrom(idxs).Draw(g.t, "delindex")
